@@ -199,6 +199,8 @@ def run(rep, tier):
                                           f'{which}: cat[{idx}].{p} != cat.{p}[{idx}] (property evaluated before indexing: {cached_before})',
                                           {'class': which, 'property': p, 'index': str(idx), 'cached_before': cached_before})
         independence(rep, r)
+        photometry_independence(rep, r)
+        photometry_independence(rep, r)
     out = drv.run(lines)
     if out is None:
         rep.tie_broken('model driver failed', drv.error)
@@ -251,6 +253,77 @@ def independence(rep, r):
             child.to_table(columns=['label', 'child_only', 'renamed'])
         except Exception as e:
             rep.violation('slice-not-independent:to_table', f'to_table failed after independent extra-property operations: {e!r}', {})
+
+
+def photometry_independence(rep, r):
+    """(S) photometry methods with their own parameters (alternate kron_params) on a catalogue or on one of its slices never change
+    what the catalogue, its slices or its parent report; extra properties added with overwrite=True are carried by slices;
+    get_label on a slice refuses labels the slice does not hold"""
+    import copy
+    cat, img = make_catalog(r)
+    n = len(cat)
+    if n < 4:
+        return
+    cols = ['label', 'xcentroid', 'ycentroid', 'segment_flux', 'kron_radius', 'kron_flux', 'kron_fluxerr', 'semimajor_sigma']
+
+    def tab(c_):
+        with warnings.catch_warnings():
+            warnings.simplefilter('ignore')
+            t = c_.to_table(columns=cols)
+        return {k_: np.atleast_1d(np.asarray(getattr(t[k_], 'value', t[k_]), float)) for k_ in cols}
+
+    def same(a, b, sl=None):
+        return all(np.array_equal(a[k_] if sl is None else a[k_][sl], b[k_], equal_nan=True) for k_ in cols)
+    twin = copy.deepcopy(cat)
+    with warnings.catch_warnings():
+        warnings.simplefilter('ignore')
+        t0 = tab(twin)
+        who = r.choice(['slice', 'list', 'parent'])
+        first = r.choice(['read-first', 'photometry-first'])
+        child, childl = cat[1:], cat[[0, 2]]
+        if first == 'read-first':
+            _ = (tab(cat), tab(child))
+        big = (r.choice([4.0, 6.0]), r.choice([4.0, 6.5]), r.choice([0.0, 3.0]))     # minimum radii above the measured ones
+        tgt = {'slice': child, 'list': childl, 'parent': cat}[who]
+        try:
+            tgt.kron_photometry(big, name='alt')
+            tgt.make_kron_apertures(kron_params=big)
+        except Exception as e:                                  # noqa: BLE001
+            rep.violation(f'kron_photometry-raises:{type(e).__name__}', f'kron_photometry{big} raised {e!r}', {'kron_params': big})
+            return
+        rep.case(('photindep', who, first, big), True, kind=f'photometry-independence:{who}:{first}')
+        rep.probe_only += 1
+        rp = {'kron_params': list(big), 'called_on': who, 'order': first, 'image': img.tolist()}
+        if not same(t0, tab(cat)):
+            rep.violation(f'photometry-changes-reports:parent:{who}', f'after kron_photometry{big} on the {who}, the parent catalogue reports different '
+                          'values than a fresh catalogue', rp)
+            return
+        if not same(t0, tab(child), slice(1, None)) or not same(t0, tab(childl), [0, 2]) or not same(t0, tab(cat[[1, 3]]), [1, 3]):
+            rep.violation(f'photometry-changes-reports:slice:{who}', f'after kron_photometry{big} on the {who}, a slice reports different values than '
+                          'the same rows of a fresh catalogue', rp)
+            return
+        # overwrite=True with a new name registers the property
+        vals = np.arange(n) * 1.5
+        cat.add_extra_property('ow_new', vals, overwrite=True)
+        try:
+            ok = 'ow_new' in cat.extra_properties and float(cat[2].ow_new) == vals[2] and np.array_equal(cat[[1, 3]].ow_new, vals[[1, 3]])
+        except AttributeError:
+            ok = False
+        if not ok:
+            rep.violation('extra-property-not-sliced:overwrite-new-name', "add_extra_property(name, value, overwrite=True) with a new name: the property is "
+                          'missing from extra_properties / from sliced catalogues', {})
+        # get_label on a slice: a label of the parent that is not in the slice
+        sub = cat[[0, 2, n - 1]]
+        absent = int(cat.labels[1])
+        try:
+            got = sub.get_label(absent)
+            rep.violation('get_label-absent-label', f'get_label({absent}) on a slice holding labels {[int(v) for v in sub.labels]} returned the source '
+                          f'with label {int(np.atleast_1d(got.labels)[0])} instead of raising', {})
+        except (ValueError, KeyError, IndexError):
+            rep.count('get_label-absent-rejected')
+        present = int(cat.labels[n - 1])
+        if int(np.atleast_1d(sub.get_label(present).labels)[0]) != present:
+            rep.violation('get_label-wrong-source', f'get_label({present}) on a slice returned another source', {})
 
 
 def replay(rep, data):
